@@ -247,3 +247,21 @@ Theorem C15_header_tie : forall hdr parse es,
 Proof. exact ahdr_okb_all. Qed.
 Print Assumptions C15_header_tie.
 
+(* ------------------------------------------------------------------------------------ *)
+(* ERRORS OF THE DESTINATION surface through the archive writer.  [full h]: every write to the
+   file at h fails.  Write then returns the error with nothing consumed and the state unchanged
+   (never a success with count 0) ... *)
+Theorem C15_write_error_surfaces : forall parse full fixed st p h,
+  aw_file st = Some h -> (0 < aw_left st)%Z -> full h = true -> p <> [] ->
+  aw_write_f parse full fixed st p = AwErr AwEWrite st.
+Proof. exact write_error_surfaces. Qed.
+Print Assumptions C15_write_error_surfaces.
+
+(* ... and writeAll over the archive writer (the save stage of the receiving pipeline) always
+   returns, whatever the destination, the header decoder, the state and the data: every
+   successful Write of a non-empty slice consumes at least one byte *)
+Theorem C15_write_all_terminates : forall parse full fixed ws st,
+  aw_run_f parse full fixed st ws <> AwFuel.
+Proof. intros. apply run_f_terminates. Qed.
+Print Assumptions C15_write_all_terminates.
+
